@@ -79,7 +79,12 @@ def set_style(spec=None):
 
 
 def _id(prefix, i):
-    return str(i) if _STYLE["ids"] == "flat" else prefix + str(i)
+    if _STYLE["ids"] == "flat":
+        return str(i)
+    if _STYLE["ids"] == "prefix":
+        # every ID of a kind is a proper prefix of the next one ("w", "wx", "wxx", ...): equal is not "contained in"
+        return prefix + "x" * i
+    return prefix + str(i)
 
 
 def tid(i):
@@ -292,6 +297,9 @@ def build(spec, task_hashes=None, comp_hashes=None, junk=0):
         workflow=BaseWorkflow([h.tasks[i] for i in order]),
         organization=BaseOrganization(team_list=list(h.teams), workplace_list=list(h.wps)),
     )
+    if spec.get("side_wf"):
+        # a second workflow object over some of the tasks (a phase picked out for a report), made after the project
+        h.side_workflow = BaseWorkflow([h.tasks[i] for i in spec["side_wf"] if i < len(h.tasks)])
     return h
 
 
@@ -356,7 +364,11 @@ def _wire(h, spec):
                 else:
                     obj.append_targeted_task(h.tasks[k])
     for i, wp in enumerate(spec.get("wps", [])):
-        if ext and wp.get("inputs"):
+        if wp.get("inputs_onesided"):
+            # what BaseWorkplace(input_workplace_list=[...]) gives: the feeding workplace does not list this one as output
+            for k in wp.get("inputs", []):
+                h.wps[i].input_workplace_list.append(h.wps[k])
+        elif ext and wp.get("inputs"):
             h.wps[i].extend_input_workplace_list([h.wps[k] for k in wp["inputs"]])
         else:
             for k in wp.get("inputs", []):
@@ -522,6 +534,13 @@ def warm_build(spec, **build_kw):
         # a freshly built, never simulated model whose first run does not initialize the logs (they are empty anyway)
         h = build(spec, **build_kw)
         h.sim_extra, h.t0 = {"initialize_state_info": True, "initialize_log_info": False}, 0
+        return h
+    if warm.get("mode") == "cutrerun":
+        # the model's own run was cut short by max_time (resources held, components placed); the observed run is a
+        # plain simulate() with default flags, as the "increase max_time" warning suggests
+        h = build(spec, **build_kw)
+        simulate(h.project, dict(spec.get("opts", default_opts()), max_time=2 * int(warm.get("k", 1)) - 1))
+        h.sim_extra, h.t0 = {}, 0
         return h
     if warm.get("mode") in ("carry", "append"):
         # the model itself has been simulated before and that run was cut short by max_time (resources held,
